@@ -327,7 +327,8 @@ func (g *exprGen) atom(want byte) *Expr {
 			return num(rapid.SampledFrom([]string{"0", "1", "2", "3", "7", "10", "007", "1.50", "0.5", "2.25", "100", "123456789012345678901234567890", "0.1", "0.2",
 				"0.3", "0.7", "0.9", "1.1", "4.35", "0.30000000000000004", "0.9999999999999999", "2.9999999999999996", "1.0000000000000002",
 				"2147483648", "4294967296", "9007199254740991", "9007199254740992", "9007199254740993", "4611686018427387904",
-				"9223372036854775807", "9223372036854775808", "18446744073709551615", "18446744073709551616", "36893488147419103232"}).Draw(t, "lit"))
+				"9223372036854775807", "9223372036854775808", "18446744073709551615", "18446744073709551616", "36893488147419103232",
+				"2" + strings.Repeat("0", 308), "17976931348623157" + strings.Repeat("0", 292), "0." + strings.Repeat("0", 330) + "1"}).Draw(t, "lit"))
 		case 2, 3:
 			return varRef(rapid.SampledFrom([]string{"n1", "n2", "n3"}).Draw(t, "var"))
 		default:
